@@ -323,3 +323,25 @@ Definition opt_eqb {A} (e : A -> A -> bool) (x y : option A) : bool :=
   | Some a, Some b => e a b
   | _, _ => false
   end.
+
+(* ------------------------------------------------------------------ reading a result as rows *)
+Fixpoint split_rows {A} (lengths : list nat) (data : list A) : list (list A) :=
+  match lengths with
+  | [] => []
+  | n :: r => firstn n data :: split_rows r (skipn n data)
+  end.
+
+(* a file holding a single array loads as an ndarray by documented design: it is one row *)
+Definition loaded_rows (l : loaded) : option (list (list elem)) :=
+  match l with
+  | LNd _ _ e => Some [e]
+  | LRa _ _ ls d => Some (split_rows ls d)
+  | LErr _ => None
+  end.
+
+Definition loaded_meta (l : loaded) : option (nat * list nat) :=
+  match l with
+  | LNd dt tail _ => Some (dt, tail)
+  | LRa dt tail _ _ => Some (dt, tail)
+  | LErr _ => None
+  end.
